@@ -17,6 +17,8 @@ from __future__ import absolute_import
 from __future__ import division
 from __future__ import print_function
 
+import numbers
+
 from . import internal_utils
 from . import utils
 import six
@@ -66,7 +68,8 @@ def project(weights,
       monotonic_dominances=monotonic_dominances,
       range_dominances=range_dominances,
       input_min=input_min,
-      input_max=input_max)
+      input_max=input_max,
+      normalization_order=normalization_order)
   if any(monotonicities):
     if 1 in monotonicities:
       inverted_increasing_mask = tf.constant(
@@ -236,7 +239,8 @@ def verify_hyperparameters(num_input_dims=None,
                            range_dominances=None,
                            input_min=None,
                            input_max=None,
-                           weights_shape=None):
+                           weights_shape=None,
+                           normalization_order=None):
   """Verifies that all given hyperparameters are consistent.
 
   This function does not inspect weights themselves. Only their shape. Use
@@ -269,10 +273,27 @@ def verify_hyperparameters(num_input_dims=None,
       clip by.
     weights_shape: None or shape of tensor which represents weights of Linear
       layer.
+    normalization_order: None (or any other false value) for no normalization,
+      or the order of the vector norm `tf.norm(weights, axis=0, ord=...)`:
+      'euclidean' or a positive number (possibly infinity).
 
   Raises:
     ValueError: If something is inconsistent.
   """
+  if isinstance(normalization_order, str):
+    valid_order = normalization_order == "euclidean"
+  elif isinstance(normalization_order, (list, tuple)):
+    valid_order = False
+  elif normalization_order:
+    valid_order = (isinstance(normalization_order, numbers.Real) and
+                   normalization_order > 0)
+  else:
+    valid_order = True
+  if not valid_order:
+    raise ValueError("'normalization_order' must be None, 'euclidean' or a "
+                     "positive number (the order of a vector norm). Given: %s" %
+                     (normalization_order,))
+
   # It also raises errors if monotonicities specified incorrectly.
   monotonicities = utils.canonicalize_monotonicities(monotonicities)
   input_min = utils.canonicalize_input_bounds(input_min)
